@@ -55,6 +55,9 @@ pub struct MEntry {
     pub ret_data_start: Option<u64>,
     /// method/level accepted by the compressor switch (deferred for start_file_with_extra_data)
     pub opts_ok: bool,
+    /// entries inherited from a base archive (C13): unix_mode as the crate reported it before the append
+    pub base_mode: Option<Option<u32>>,
+    pub base_encrypted: bool,
 }
 
 #[derive(Clone, Debug)]
@@ -228,7 +231,8 @@ impl Model {
             0 => true, // Stored accepts any level silently when the compressor is already Stored (R4)
             8 => o.level.map(|l| (0..=9).contains(&l)).unwrap_or(true),
             12 => o.level.map(|l| (if self.cfg.bzip2_level0_err { 1 } else { 0 }..=9).contains(&l)).unwrap_or(true),
-            93 => o.level.map(|l| (-7..=22).contains(&l)).unwrap_or(true),
+            // zstd's own range is ZSTD_minCLevel() (-131072) ..= 22; the doc comment quotes -7 as the lowest useful level
+            93 => o.level.map(|l| (-131072..=22).contains(&l)).unwrap_or(true),
             _ => false,
         }
     }
@@ -385,6 +389,8 @@ impl Model {
             ret: 0,
             ret_data_start: None,
             opts_ok: matches!(kind, MKind::Dir | MKind::Symlink) || self.opts_supported(o),
+            base_mode: None,
+            base_encrypted: false,
         }
     }
 
@@ -577,6 +583,8 @@ impl Model {
                             ret: 0,
                             ret_data_start: None,
                             opts_ok: true,
+                            base_mode: None,
+                            base_encrypted: false,
                         };
                         self.entries.push(e);
                     }
